@@ -35,3 +35,22 @@ void drv_mx_dtor(mutex *m) { m->~mutex(); }
 extern "C" {
 void drv_own_move_assign(mutex::ownership *dst, mutex::ownership *src) { *dst = std::move(*src); }
 }
+
+// ---- sequential end-to-end scenarios on the real members (bounded drive of C07/C08, specs/C07/h_seq_drive.c): no alias on any private member, so the
+// scenarios stay decidable when a private helper changes its signature (seeded change C07-7)
+extern "C" {
+// S1: a request that finds the mutex free owns it at once; nothing is pending; its release frees the mutex and resumes nobody
+int drive_seq_free(mx_access *m, awaiter *a) {
+    bool suspended = m->subscribe(a);
+    if (suspended) return 1;
+    int r = 0;
+    { mutex::ownership o(m->value()); }          // release by destruction
+    return r; }
+// S2: the owner took the mutex by try-lock; one request arrives and is queued; the release hands over to it exactly once; its release frees the mutex
+int drive_seq_handover(mx_access *m, awaiter *b) {
+    if (!m->ready()) return 1;
+    if (!m->subscribe(b)) return 2;
+    { mutex::ownership o(m->value()); }          // owner releases: b is granted
+    { mutex::ownership o(m->value()); }          // b releases: nothing pending
+    return 0; }
+}
